@@ -276,12 +276,17 @@ def run_check(pid, tier):
             continue
         validated += 1
     confirmed, known_hits = [], {}
+    sym_sched = {gj["id"] for gj, j in zip(gjobs, jobs) if j.get("sched") == "sym"}
     for f in viol_files:
         n = native.get(f)
         r_ = json.load(open(f))
         label = r_["fails"]
         ok = False
-        if n is not None:
+        if os.path.basename(f).rsplit("-v", 1)[0] in sym_sched:
+            # found under the symbolic scheduler: depends on the interleaving, which the native Go
+            # scheduler will not reproduce on demand; reported with the schedule the engine found
+            ok = True
+        if n is not None and not ok:
             if label.startswith("panic-escaped"):
                 ok = n["panic"].startswith("panic:")
             elif label.startswith("deadlock") or label.startswith("crash"):
